@@ -21,25 +21,35 @@ Open Scope Q_scope.
 Definition vec := list Q.
 Definition mat := list (list Q).
 
+(* ---- arithmetic that stays cheap on float (dyadic) data under vm_compute ------------------------ *)
+(* x + y with the fraction reduced; the products are written denominator-first because Pos.mul
+   recurses on its first argument and denominators of floats are powers of two *)
+Definition radd (x y : Q) : Q :=
+  Qred (Qmake (QDen y * Qnum x + QDen x * Qnum y) (Qden x * Qden y)).
+Definition rsub (x y : Q) : Q := radd x (- y).
+
 (* ---- vectors ---------------------------------------------------------------------- *)
 Definition vzero (n : nat) : vec := repeat 0 n.
 Fixpoint vadd (a b : vec) : vec :=
-  match a, b with x :: a', y :: b' => (x + y) :: vadd a' b' | _, _ => [] end.
+  match a, b with x :: a', y :: b' => radd x y :: vadd a' b' | _, _ => [] end.
 Fixpoint vsub (a b : vec) : vec :=
-  match a, b with x :: a', y :: b' => (x - y) :: vsub a' b' | _, _ => [] end.
-Definition vred (a : vec) : vec := map Qred a.        (* same values, reduced fractions *)
+  match a, b with x :: a', y :: b' => rsub x y :: vsub a' b' | _, _ => [] end.
+Fixpoint vmul (a b : vec) : vec :=
+  match a, b with x :: a', y :: b' => (x * y) :: vmul a' b' | _, _ => [] end.
+Fixpoint rdot (a b : vec) : Q :=
+  match a, b with x :: a', y :: b' => radd (x * y) (rdot a' b') | _, _ => 0 end.
 
 (* A x  and  A^T y  (A is a list of rows with n columns) *)
-Definition mv (A : mat) (x : vec) : vec := map (fun r => Qred (dot r x)) A.
+Definition mv (A : mat) (x : vec) : vec := map (fun r => rdot r x) A.
 Fixpoint tmv (n : nat) (A : mat) (y : vec) : vec :=
   match A, y with
-  | r :: A', yi :: y' => vred (vadd (qscale yi r) (tmv n A' y'))
+  | r :: A', yi :: y' => vadd (qscale yi r) (tmv n A' y')
   | _, _ => vzero n
   end.
 (* sum_i w_i g_i  (np.dot(gradients, weights) with gradients of shape (n, R)) *)
 Fixpoint wvsum (n : nat) (ws : vec) (gs : list vec) : vec :=
   match ws, gs with
-  | w :: ws', g :: gs' => vred (vadd (qscale w g) (wvsum n ws' gs'))
+  | w :: ws', g :: gs' => vadd (qscale w g) (wvsum n ws' gs')
   | _, _ => vzero n
   end.
 
@@ -83,7 +93,7 @@ Definition residual (n : nat) (A : mat) (b g : vec) : vec := tmv n A (vsub (mv A
 Fixpoint wresidual (n : nat) (sys : list wsystem) (g : vec) : vec :=
   match sys with
   | [] => vzero n
-  | (w, (A, b)) :: t => vred (vadd (qscale w (residual n A b g)) (wresidual n t g))
+  | (w, (A, b)) :: t => vadd (qscale w (residual n A b g)) (wresidual n t g)
   end.
 Definition wf_system (n : nat) (s : wsystem) : bool :=
   let '(_, (A, b)) := s in forallb (fun r => (length r =? n)%nat) A && (length b =? length A)%nat.
@@ -96,10 +106,10 @@ Definition accept (n : nat) (sys : list wsystem) (g : vec) : bool :=
    test runs on dyadic numbers only. *)
 Definition col (j : nat) (A : mat) : vec := map (fun r => nth j r 0) A.
 Definition gram (n : nat) (A : mat) : mat :=
-  map (fun j => map (fun k => Qred (dot (col j A) (col k A))) (seq 0 n)) (seq 0 n).
-Definition atb (n : nat) (A : mat) (b : vec) : vec := map (fun j => Qred (dot (col j A) b)) (seq 0 n).
+  map (fun j => map (fun k => rdot (col j A) (col k A)) (seq 0 n)) (seq 0 n).
+Definition atb (n : nat) (A : mat) (b : vec) : vec := map (fun j => rdot (col j A) b) (seq 0 n).
 Fixpoint madd (a b : mat) : mat :=
-  match a, b with x :: a', y :: b' => vred (vadd x y) :: madd a' b' | _, _ => [] end.
+  match a, b with x :: a', y :: b' => vadd x y :: madd a' b' | _, _ => [] end.
 Fixpoint wgram (n : nat) (sys : list wsystem) : mat :=
   match sys with
   | [] => repeat (vzero n) n
@@ -108,7 +118,7 @@ Fixpoint wgram (n : nat) (sys : list wsystem) : mat :=
 Fixpoint watb (n : nat) (sys : list wsystem) : vec :=
   match sys with
   | [] => vzero n
-  | (w, (A, b)) :: t => vred (vadd (qscale w (atb n A b)) (watb n t))
+  | (w, (A, b)) :: t => vadd (qscale w (atb n A b)) (watb n t)
   end.
 
 Fixpoint remove_nth {A} (j : nat) (l : list A) : list A :=
@@ -132,7 +142,7 @@ Fixpoint det (fuel : nat) (M : mat) : Q :=
          | [] => 0
          | x :: row' =>
              if Qeqb x 0 then go (S j) (- sgn) row'
-             else Qred (sgn * x * det f (map (remove_nth j) M') + go (S j) (- sgn) row')
+             else radd (sgn * x * det f (map (remove_nth j) M')) (go (S j) (- sgn) row')
          end) 0%nat 1 r
   | _, _ => 1
   end.
@@ -163,7 +173,7 @@ Record rdata := {
 (* delta_variables = perturbed - variables ; delta_functions = perturbed - unperturbed (NaN-propagating) *)
 Definition delta_x (x : vec) (X : mat) : mat := map (fun p => vsub p x) X.
 Definition delta_f (f0 : oQ) (fp : list oQ) : list oQ :=
-  map (fun p => match f0, p with Some a, Some b => Some (b - a) | _, _ => None end) fp.
+  map (fun p => match f0, p with Some a, Some b => Some (rsub b a) | _, _ => None end) fp.
 (* delta_variables[idx, success, :], delta_functions[idx, success] *)
 Fixpoint drop_failed_rows (D : mat) (df : list oQ) : mat * vec :=
   match D, df with
@@ -226,12 +236,10 @@ Definition count_pos (w : vec) : nat := length (filter (fun x => Qltb 0 x) w).
 Definition nat_Q (k : nat) : Q := inject_Z (Z.of_nat k).
 Definition bessel (w : vec) : Q := let N := nat_Q (count_pos w) in N / (N - 1).        (* N / (N - 1) *)
 
-Definition wmean (w f : vec) : Q := dot f w.
+Definition wmean (w f : vec) : Q := rdot f w.
 Definition wvariance (c : Q) (w f : vec) : Q :=
-  let m := wmean w f in c * dot (map (fun y => (y - m) * (y - m)) f) w.
+  let m := wmean w f in c * rdot (map (fun y => rsub y m * rsub y m) f) w.
 (* sigma * grad sigma = c * ( sum_i w_i f_i g_i  -  mean * sum_i w_i g_i ) *)
-Fixpoint vmul (a b : vec) : vec :=
-  match a, b with x :: a', y :: b' => (x * y) :: vmul a' b' | _, _ => [] end.
 Definition sd_grad_times_sd (n : nat) (c : Q) (w f : vec) (gs : list vec) : vec :=
   qscale c (vsub (wvsum n (vmul f w) gs) (qscale (wmean w f) (wvsum n w gs))).
 
@@ -268,6 +276,17 @@ Definition calc_gradient (n : nat) (x : vec) (rs : list rdata) (failed : list bo
             end
         end
   end.
+
+(* _compute_gradients for one function: restrict variables and perturbed variables to the free
+   columns (variables[mask], perturbed_variables[..., mask]), estimate, re-expand with zeros *)
+Definition restrict_rdata (mask : list bool) (r : rdata) : rdata :=
+  {| r_X := map (restrict_free mask) (r_X r); r_f0 := r_f0 r; r_fp := r_fp r |}.
+Definition map_gres (f : vec -> vec) (g : gres) : gres :=
+  match g with GMean v => GMean (f v) | GStd v s => GStd (f v) s | o => o end.
+Definition compute_gradient (mask : list bool) (x : vec) (rs : list rdata) (failed : list bool) (w : vec)
+    (e : estimator) (merge : bool) : gres :=
+  map_gres (expand_with_zeros mask)
+    (calc_gradient (count_true mask) (restrict_free mask x) (map (restrict_rdata mask) rs) failed w e merge).
 
 (* weighted objective gradient: (objective_weights[:, None] * objective_gradients).sum(axis=0) *)
 Definition weighted_objective_gradient (n : nat) (ow : vec) (gs : list vec) : vec := wvsum n ow gs.
